@@ -140,15 +140,7 @@ func runC06(cx *CheckCtx) {
 				}
 			}
 			cx.decide(okP, "publication", "netmap.NewEpoch/structured", "'p'‖BE4(epochNum)‖key → value for every item of the scan of '2'", "the structured list for the epoch is written as "+pPut.Args[1].pretty()+" → "+pPut.Args[2].pretty(), pPut.Where(w))
-			hdr := innermostLoop(pPut.Instr.Block())
-			okL := hdr != nil
-			if okL {
-				for _, e := range loopExits(hdr) {
-					if e.from != hdr {
-						okL = false
-					}
-				}
-			}
+			okL, _ := everyElement(a, pPut, nil)
 			cx.decide(okL, "publication", "netmap.NewEpoch/structured/all", "every scanned candidate is copied (the loop ends only on exhaustion)", "the copy loop of structured candidates can stop early or skip items", pPut.Where(w))
 			// legacy snapshot: the stored value is the result of one helper call, and that helper is a filter
 			sv := unserialize(snapPut.Args[2])
@@ -209,15 +201,7 @@ func runC06(cx *CheckCtx) {
 				okH = lo == 1 && h.Args[2].Op == "none" && isC && ff == (1|2) // KeysOnly|RemovePrefix, forward
 			}
 			cx.decide(okF && mname == "newEpoch" && fl == 15 && okH, "fan-out", "netmap.cleanup/call", "Call(key[1:], \"newEpoch\", All, epochNum) for every key of the forward scan of 'e'", "subscribers are not called with newEpoch(epochNum) for every stored subscription in key order", fan.Where(w))
-			fh := innermostLoop(fan.Instr.Block())
-			okE := fh != nil
-			if okE {
-				for _, e := range loopExits(fh) {
-					if e.from != fh {
-						okE = false
-					}
-				}
-			}
+			okE, _ := everyElement(a, fan, nil)
 			catching := false
 			for cc := fan.Ctx; cc != nil; cc = cc.parent {
 				if cc.catching {
